@@ -485,7 +485,7 @@ func containerOracle(kind int, pemForm bool, data []byte) (int, asn1struct.ECPar
 		}
 		params = k.Algorithm.Parameters.FullBytes
 	case kSEC1:
-		var k asn1struct.ECPrivateKey
+		var k harnessSEC1
 		if _, err := asn1.Unmarshal(der, &k); err != nil {
 			return 0, none
 		}
